@@ -123,6 +123,8 @@ func (vm *Vm) Run(ctx context.Context, b []byte) ([]byte, error) {
 	logg.Tracef("new vm run")
 	running := true
 	vm.last = ""
+	// a match belongs to the input of one run; HALT and errors both end the run
+	vm.st.ResetFlag(state.FLAG_INMATCH)
 	for running {
 		r := vm.st.MatchFlag(state.FLAG_TERMINATE, true)
 		if r {
@@ -384,10 +386,8 @@ func (vm *Vm) runInCmp(ctx context.Context, b []byte) ([]byte, error) {
 		panic(err)
 	}
 	if have {
-		if reading {
-			logg.DebugCtxf(ctx, "ignoring input - already have match", "input", sym)
-			return b, nil
-		}
+		logg.DebugCtxf(ctx, "ignoring input - already have match", "input", sym, "reading", reading)
+		return b, nil
 	} else {
 		vm.st.SetFlag(state.FLAG_READIN)
 	}
